@@ -1243,6 +1243,7 @@ fn attrs(s: &[u8]) -> Result<(usize, usize, Vec<u8>, Vec<u8>, u32, Option<u16>, 
 pub fn c13(ctx: &Ctx) -> (Report, Meta) {
     let nums: Vec<u16> = feature_numbers().into_iter().collect();
     let second = make_frame(&[0x3E, 0xD0, 0x01]);
+    let thorough = ctx.tier.thorough();
     let parts = par_shards(1024, |l| {
         let mut rep = Report::new();
         let mut payloads: Vec<Vec<u8>> = vec![];
@@ -1268,7 +1269,15 @@ pub fn c13(ctx: &Ctx) -> (Report, Meta) {
             payloads.push(p);
         }
         let mut suffixes: Vec<Vec<u8>> = vec![];
-        if l <= 3 {
+        if thorough {
+            // every suffix length 1..=48 in three fills, for every payload length
+            for n in 1..=48usize {
+                suffixes.push(vec![0x00; n]);
+                suffixes.push(vec![0xFF; n]);
+                suffixes.push((0..n).map(|i| (i * 91 + 0xD3) as u8).collect());
+            }
+        }
+        if l <= 3 || thorough {
             for b in 0..=255u8 {
                 suffixes.push(vec![b]);
             }
@@ -1387,7 +1396,7 @@ pub fn c13(ctx: &Ctx) -> (Report, Meta) {
     rep.sample(json!({"frame_L": 1, "payload": "every byte value", "expect": "message_number None, get_message Empty, with and without suffix"}));
     let _ = ctx;
     let meta = Meta {
-        rule: "every payload length L in 0..=1023 (L=1: all 256 payload bytes; L>=2: ramp, zero and ones payloads carrying a supported number) x suffixes {every single byte (L<=3) or {00,D3,FF}; 2,3,4,8,40 bytes of 00/FF/ramp; a complete second frame; first 5 bytes of one}; all attributes incl. decoded message compared with the suffix-free frame; message_number rule checked against the first 12 payload bits".into(),
+        rule: "every payload length L in 0..=1023 (L=1: all 256 payload bytes; L>=2: ramp, zero and ones payloads carrying a supported number) x suffixes {every single byte (L<=3) or {00,D3,FF}; 2,3,4,8,40 bytes of 00/FF/ramp; a complete second frame; first 5 bytes of one; suffixes reaching totals around 64 KiB / 128 KiB and multiples of 1024 for some L; thorough: every single byte and every suffix length 1..=48 in three fills for every L}; all attributes incl. decoded message compared with the suffix-free frame; message_number rule checked against the first 12 payload bits".into(),
         exhaustive: true,
         bounds: json!({"L":"0..=1023"}),
         assumptions: vec![],
